@@ -166,8 +166,11 @@ def check_add(ctx, repo, cls):
         in_loop = False
 
         def close_iteration():
+            nonlocal rejected
             if not in_loop:
                 return
+            if it_flag == 0 and it_eq is True:
+                rejected = True        # a member with the same cost vector: the newcomer must not get in, whatever else was tested
             row = (it_flag, it_eq if it_flag == 0 else None)
             act = "delete" if it_deleted else "none"
             table.setdefault(str(row), set()).add(act)
@@ -279,7 +282,7 @@ def check_add(ctx, repo, cls):
         if retv not in (True, False):
             bad["R2"] = bad["R2"] or (p, "returns %s instead of the success flag" % (text(ret) if ret is not None else "nothing"))
         if rejected and inserted:
-            bad["R1"] = bad["R1"] or (p, "the newcomer is inserted although a member dominates it or has the same cost vector")
+            bad["R1"] = bad["R1"] or (p, "the newcomer is inserted although a member dominates it or has the same cost vector (the archive keeps ONE representative of a cost vector)")
         if not rejected and inserted != 1:
             bad["R1"] = bad["R1"] or (p, "the newcomer is not inserted although no member dominates or equals it")
     ctx.extra["add_action_table"] = {k: sorted(v) for k, v in table.items()}
